@@ -19,3 +19,78 @@ def replay(ctx, rep):
         return 1
     print('not reproduced')
     return 0
+
+
+def retype_scenarios(ctx, out):
+    """metamodel edits interleaved with stores: after `feature.eType = T2`, values are checked against T2
+    on EVERY instance, also on slots that were already used (oracle on the implementation only)."""
+    from harness import common
+    common.use_repo()
+    from pyecore import ecore as E
+    rng = ctx.rng
+    types = [('EInt', E.EInt, [3, -1], ['x']), ('EString', E.EString, ['a', ''], [4, 1.5]),
+             ('EBoolean', E.EBoolean, [True], ['t', 7]), ('EDouble', E.EDouble, [1.5], [2, 'z'])]
+    n = 60 if ctx.tier != 'thorough' else 1500
+    cnt = 0
+    for i in range(n):
+        many = rng.random() < 0.4
+        t1, t2 = rng.sample(types, 2)
+        A = E.EClass('A')
+        f = E.EAttribute('v', t1[1], upper=-1 if many else 1)
+        A.eStructuralFeatures.append(f)
+        used, fresh = A(), A()
+        hist = []
+        for _ in range(rng.randrange(0, 3)):          # the slot is used (type-checked) before the edit
+            v = rng.choice(t1[2] + [None])
+            try:
+                if many:
+                    if v is not None:
+                        used.v.append(v)
+                else:
+                    used.v = v
+                hist.append(['store', v])
+            except Exception:   # noqa
+                pass
+        f.eType = t2[1]
+        hist.append(['retype', t1[0], t2[0]])
+        for obj, who in ((used, 'used-slot'), (fresh, 'fresh-instance')):
+            for v, conforming in [(x, True) for x in t2[2]] + [(x, False) for x in t2[3] + t1[2] if not _conf(x, t2[0])]:
+                cnt += 1
+                try:
+                    if many:
+                        obj.v.append(v)
+                    else:
+                        obj.v = v
+                    raised = None
+                except E.BadValueError:
+                    raised = 'BadValueError'
+                except Exception as e:  # noqa
+                    raised = type(e).__name__
+                case = {'many': many, 'history': hist + [['store-on', who, repr(v)]]}
+                if conforming and raised == 'BadValueError':
+                    out.fail({'property': 'C03', 'clause': 'accept-after-retype', 'slot': who, 'many': many},
+                             f'after retyping {t1[0]}->{t2[0]} the conforming value {v!r} is refused on a {who}', case)
+                if not conforming and raised != 'BadValueError':
+                    out.fail({'property': 'C03', 'clause': 'reject-after-retype', 'slot': who, 'many': many},
+                             f'after retyping {t1[0]}->{t2[0]} the non-conforming value {v!r} gives {raised} on a {who}', case)
+    out.coverage['retype_stores_checked'] = cnt
+
+
+def _conf(v, tname):
+    if tname == 'EInt':
+        return isinstance(v, int)
+    if tname == 'EString':
+        return isinstance(v, str)
+    if tname == 'EBoolean':
+        return isinstance(v, bool)
+    if tname == 'EDouble':
+        return isinstance(v, float)
+    return False
+
+
+_kernel_run = run
+
+
+def run(ctx, out):   # noqa: F811
+    _kernel_run(ctx, out)
+    retype_scenarios(ctx, out)
